@@ -862,3 +862,48 @@ Proof.
   split; [vm_compute; reflexivity|]. split; [vm_compute; reflexivity|]. split; [vm_compute; reflexivity|].
   apply (s_sat_spec W2_tree W_cst W2_formula eq_refl eq_refl). vm_compute. reflexivity.
 Qed.
+
+(* K_mexpr_eps_shape: witnesses *)
+Definition W3_tree : tree := (Node [60;115;116;97;114;116;62]%N 5%N false [(Node [60;97;62]%N 4%N false [(Node [60;99;62]%N 1%N false [(Node (@nil N) 0%N false [])]); (Node [60;98;62]%N 3%N false [(Node [122]%N 2%N false [])])])]).
+Definition W3_formula : formula atom := (FExists (MkVar VBound [120]%N [60;97;62]%N) (InTree (Node [60;115;116;97;114;116;62]%N 5%N false [(Node [60;97;62]%N 4%N false [(Node [60;99;62]%N 1%N false [(Node (@nil N) 0%N false [])]); (Node [60;98;62]%N 3%N false [(Node [122]%N 2%N false [])])])])) (Some (MkMexpr [(MkVar VBound [118]%N [60;98;62]%N)] [((Node [60;97;62]%N 25%N false [(Node [60;99;62]%N 27%N false []); (Node [60;98;62]%N 28%N true [])]), [((MkVar VDummy [68;85;77;77;89;95;48]%N (@nil N)), [0]%nat); ((MkVar VBound [118]%N [60;98;62]%N), [1]%nat)])])) (FSmt (AStr false (SVar (MkVar VBound [118]%N [60;98;62]%N)) (SLit [122]%N)))).
+(* evaluate: FALSE *)
+Definition W3p_tree : tree := (Node [60;115;116;97;114;116;62]%N 10%N false [(Node [60;97;62]%N 9%N false [(Node [60;99;62]%N 8%N false []); (Node [60;98;62]%N 7%N false [(Node [122]%N 6%N false [])])])]).
+Definition W3p_formula : formula atom := (FExists (MkVar VBound [120]%N [60;97;62]%N) (InTree (Node [60;115;116;97;114;116;62]%N 10%N false [(Node [60;97;62]%N 9%N false [(Node [60;99;62]%N 8%N false []); (Node [60;98;62]%N 7%N false [(Node [122]%N 6%N false [])])])])) (Some (MkMexpr [(MkVar VBound [118]%N [60;98;62]%N)] [((Node [60;97;62]%N 61%N false [(Node [60;99;62]%N 63%N false []); (Node [60;98;62]%N 64%N true [])]), [((MkVar VDummy [68;85;77;77;89;95;50]%N (@nil N)), [0]%nat); ((MkVar VBound [118]%N [60;98;62]%N), [1]%nat)])])) (FSmt (AStr false (SVar (MkVar VBound [118]%N [60;98;62]%N)) (SLit [122]%N)))).
+(* evaluate: TRUE *)
+
+(* does a match-expression prefix tree contain a CLOSED leaf labelled with a nonterminal
+   (an epsilon-derived nonterminal of the match expression)? *)
+Fixpoint has_closed_nt_leaf (t : tree) : bool :=
+  match t with
+  | Node l _ o ks => (negb o && is_nil ks && is_nt l) || existsb has_closed_nt_leaf ks
+  end.
+Definition K_mexpr_eps_shape := fix go (f : formula atom) : bool :=
+  match f with
+  | FSmt _ | FSPred _ _ | FSemPred _ _ => false
+  | FNot g => go g
+  | FAnd fs | FOr fs => existsb go fs
+  | FForall _ _ m b | FExists _ _ m b =>
+      match m with Some me => existsb (fun tp => has_closed_nt_leaf (fst tp)) (me_trees me) | None => false end
+      || go b
+  | FForallInt _ b | FExistsInt _ b => go b
+  end.
+
+(* Match expressions: the SAME derivation of "z" (with <c> -> epsilon) in its two ISLa
+   representations — epsilon as `children = ()` (parser) and as a child labelled "" (fuzzer) —
+   is judged differently by the evaluator for `exists <a> x="{<b> v}" in start: (= v "z")`;
+   the specification's match accepts both (its prefix tree has the leaf <c> with no children,
+   which constrains nothing).  language.match demands that the subject node has NO children. *)
+Theorem mexpr_eps_shape_refuted :
+  yield W3_tree = yield W3p_tree /\
+  K_mexpr_eps_shape W3_formula = true /\
+  m_legacy W3p_tree W3p_formula = Ok TT /\ models atom_denote W3p_tree env_empty W3p_formula /\
+  m_legacy W3_tree W3_formula = Ok FF /\ models atom_denote W3_tree env_empty W3_formula.
+Proof.
+  split; [reflexivity|]. split; [vm_compute; reflexivity|].
+  split; [vm_compute; reflexivity|].
+  split; [apply (satb_spec atom atom_denote W3p_tree atom_dec atom_dec_spec 0 W3p_formula eq_refl eq_refl env_empty);
+          vm_compute; reflexivity|].
+  split; [vm_compute; reflexivity|].
+  apply (satb_spec atom atom_denote W3_tree atom_dec atom_dec_spec 0 W3_formula eq_refl eq_refl env_empty).
+  vm_compute. reflexivity.
+Qed.
